@@ -123,6 +123,9 @@ class Session:
         _SESSIONS[0] += 1
         self.debug = (_SESSIONS[0] % 3 == 0) if debug is None else debug
         self.client = managesieve.Client("srv.example", debug=self.debug)
+        # the client under test is not alone: every other session, a second Client object is created after it and stays alive
+        # (what it is, or what the class remembers of it, must make no difference to this one)
+        self.bystander = managesieve.Client("other.example") if _SESSIONS[0] % 2 == 0 else None
         self.wire = Wire()
 
     def call(self, fn, timeout=3):
@@ -139,6 +142,10 @@ class Session:
             res = "error" if isinstance(val, managesieve.Error) else "crash " + type(val).__name__
         else:
             res = show_value(val)
+            # the caller does as it pleases with what it got back (appends to the list of names, empties it): that is the
+            # caller's copy — the client's later answers do not depend on it
+            import aliasing
+            aliasing.scribble(val)
         if len(self.wire.writes) < nw:
             nw = 0
         ws = ",".join(("t:" if t else "p:") + b.hex() for t, b in self.wire.writes[nw:])
